@@ -7,6 +7,7 @@ import Hub.Props.C13
 import Hub.Props.C14
 import Hub.Props.C15
 import Hub.Props.C03
+import Hub.Props.C05
 import Hub.Props.C13Facts
 import Hub.Props.C10
 import Hub.Props.C19
